@@ -108,6 +108,15 @@ func init() {
 }
 
 func runC19(c *Ctx) {
+	// Reversal is the mirror map (info field k <- n-1-k with ConsDir negated, hop
+	// field k <- h-1-k, CurrINF <- n-1-CurrINF, CurrHF <- h-1-CurrHF, nothing else),
+	// decided for 0..3 segments and 0..5 hops by the symbolic-store table shared
+	// with C03. A mirror map applied twice is the identity, which is the
+	// "reversing twice restores the path" clause for the decoded form (Raw.Reverse
+	// is decode / Decoded.Reverse / serialize, rule R2 of C03).
+	if v := c.View("(*pkg/slayers/path/scion.Decoded).Reverse"); v != nil {
+		c03ReverseTable(c, v, "V1-reverse-is-the-mirror-map")
+	}
 	bT := "(*pkg/slayers/path/scion.Base)"
 	rT := "(*pkg/slayers/path/scion.Raw)"
 	bd := boolDom()
